@@ -102,6 +102,21 @@ def make_circuit(lw, rng):
             c.herald(int(rng.integers(0, 2)), int(m), outs[int(m)])
             log.append(["herald", "all modes", int(m), outs[int(m)]])
         return c, log
+    if rng.random() < 0.04:
+        # wide unitary with several heralds (some carrying photons, some with in != out): large output bases
+        from ..gen import haar
+        n = int(rng.choice([7, 8, 9]))
+        c = lw.Unitary(haar(rng, n)); log.append(["unitary", n])
+        n_h = int(rng.integers(1, 4))
+        hm = [int(x) for x in rng.choice(n, size=n_h, replace=False)]
+        ho = [int(x) for x in rng.permutation(hm)] if rng.random() < 0.5 else list(hm)
+        for a_, b_ in zip(hm, ho):
+            nh_ = int(rng.choice([0, 1, 1]))
+            c.herald(nh_, a_, b_); log.append(["herald", nh_, a_, b_])
+        if rng.random() < 0.3:
+            c.loss(int(rng.integers(c.input_modes)), float(rng.uniform(0.05, 0.5))); log.append(["loss"])
+        log.append(["wide"])
+        return c, log
     if r < 0.2:
         g = str(rng.choice(["CNOT_Heralded", "CZ_Heralded", "CNOT", "CZ"]))
         c = lw.Circuit(4); log.append(["circuit", 4])
@@ -154,6 +169,8 @@ def run(ctx):
                 ctx.bucket("vacuum_visible_input_with_herald_photons")
         if k == 0:
             ctx.bucket("every_mode_heralded")
+        if log and log[-1] == ["wide"]:
+            ctx.bucket("wide_circuit_large_basis")
         n_inputs = int(rng.integers(1, 4))
         inputs = []
         for _ in range(n_inputs):
